@@ -166,10 +166,23 @@ def main(tier, replay):
             else:
                 target = "org.example.t.Method"
             cmd = [varlink, "--color", color, "-R", resolver.address, "call"] + (["--more"] if more else []) + [target, '{"arg": 1}']
+            if ctx.violations >= 5:
+                break
             try:
                 p = subprocess.run(cmd, stdout=subprocess.PIPE, stderr=subprocess.PIPE, timeout=30)
             except subprocess.TimeoutExpired:
-                ctx.inconc({"why": "varlink call did not exit within 30 s", "replies": replies})
+                # the scripted service answers at once and then sits idle: a tool that is still
+                # running 30 s later is waiting for something that will not come.  Once is
+                # inconclusive; the same case hanging again is a verdict.
+                with lock:
+                    script["replies"] = replies
+                try:
+                    subprocess.run(cmd, stdout=subprocess.PIPE, stderr=subprocess.PIPE, timeout=30)
+                    ctx.inconc({"why": "varlink call did not exit within 30 s once, but did when repeated", "replies": replies})
+                except subprocess.TimeoutExpired:
+                    ctx.case((json.dumps(replies, sort_keys=True)[:300], more, form, color))
+                    ctx.violation("c20:does-not-exit-after-the-final-reply:%s" % ("more" if more else "call"), {"engine": "c20", "replies": replies, "more": more, "form": form, "color": color, "cmd": cmd[1:],
+                                  "message": "the service sent its final reply and keeps the connection open; `varlink call` is still running 30 s later (twice)"})
                 continue
             out = p.stdout.decode("utf-8", "replace")
             err = p.stderr.decode("utf-8", "replace")
